@@ -610,6 +610,67 @@ fn extra_legs(acc: &mut Acc) {
             _ => {}
         }
     }
+    // ---- (7) a step with threshold 2 whose two functionaries hand in the *same* sub-layout (identical
+    // content, each signed with the own key), each with the own sub-directory. Each functionary
+    // counts only if the inner step in *his* directory has a valid link by an authorised key.
+    {
+        let inner_f = keys::get("ed4");
+        let outsider = keys::get("ed5");
+        let clear_all = |dir: &Path| {
+            for e in std::fs::read_dir(dir).unwrap().flatten() {
+                let p = e.path();
+                if p.is_dir() {
+                    let _ = std::fs::remove_dir_all(p);
+                } else {
+                    let _ = std::fs::remove_file(p);
+                }
+            }
+        };
+        let inner = || world::layout(vec![world::step("in", 1, &[inner_f])], vec![], &[inner_f], world::far_future());
+        let inner_link = || world::link("in", world::arts(&[("m", 1)]), world::arts(&[("p", 2)]));
+        for bad in ["none", "empty", "link-by-a-key-the-sub-layout-does-not-authorise", "link-altered-after-signing", "directory-missing"] {
+            for bad_one in 0..2usize {
+                clear_all(&dir);
+                for (i, fk) in [a, b].iter().enumerate() {
+                    world::write(&dir, &world::link_file("s0", fk), &world::block_text(&world::sign_layout(inner(), &[fk])));
+                    let sub = dir.join(format!("s0.{}", fk.prefix()));
+                    let is_bad = i == bad_one && bad != "none";
+                    if is_bad && bad == "directory-missing" {
+                        continue;
+                    }
+                    std::fs::create_dir_all(&sub).unwrap();
+                    if is_bad && bad == "empty" {
+                        continue;
+                    }
+                    if is_bad && bad.starts_with("link-by-a-key") {
+                        world::write(&sub, &world::link_file("in", outsider), &world::block_text(&world::sign_link(inner_link(), &[outsider])));
+                    } else if is_bad && bad == "link-altered-after-signing" {
+                        let mut v = world::block_value(&world::sign_link(inner_link(), &[inner_f]));
+                        v["signed"]["products"]["p"]["sha256"] = json!(util::hex(&world::h(9)));
+                        world::write(&sub, &world::link_file("in", inner_f), &v.to_string());
+                    } else {
+                        world::write(&sub, &world::link_file("in", inner_f), &world::block_text(&world::sign_link(inner_link(), &[inner_f])));
+                    }
+                }
+                let lay = world::sign_layout(world::layout(vec![world::step("s0", 2, &[a, b])], vec![], &[a, b], world::far_future()), &[owner]);
+                acc.evaluations += 1;
+                acc.traces += 1;
+                acc.nontrivial += 1;
+                acc.states += 1;
+                let v = world::verify(&lay, world::owner_map(&[owner]), &dir);
+                let must_reject = bad != "none";
+                acc.outcome(&format!("impl-{}/model-{}", v.tag(), if must_reject { "reject" } else { "accept" }));
+                let which = if [a, b][bad_one].id() < [a, b][1 - bad_one].id() { "smaller" } else { "larger" };
+                let w = || json!({"kind": "identical-sub-layouts", "threshold": 2, "fault_in_the_directory_of_the_functionary_with_the_key_id": which, "fault": bad});
+                match &v {
+                    Verdict::Ok(_) if must_reject => acc.violation(&format!("counted:identical-sub-layouts:{bad}"), &format!("two functionaries handed in the same sub-layout; the one with the {which} key id counted towards threshold 2 although the inner step in his own directory has no valid authorised link ({bad})"), w),
+                    Verdict::Panic(l, m) => acc.violation(&format!("panic:{l}"), &format!("verification panicked at {l}: {m}"), w),
+                    _ => {}
+                }
+            }
+        }
+        clear_all(&dir);
+    }
     // ---- (6) a validly signed link altered after signing: every leaf of its signed part x every
     // small edit (re-spelled strings, wrapped integers, null <-> empty, member removed), one at a time.
     // Unless the edited file reads back as the very same link, it must not count.
@@ -684,7 +745,7 @@ pub fn run(tier: Tier) -> i32 {
     acc.transitions += tr2;
     bound += &format!("; 2 steps: BFS depth {depth2} = {} populations x {} layouts", states2.len(), specs2.len());
     extra_legs(&mut acc);
-    bound += "; misfiled evidence: 9 file-name slots x (alone / next to a proper link) x thresholds 1,2; 9 authorised lists with a repeated id; 6 layouts that list one step name twice; one key under two ids x 4 (population, threshold) pairs; altered after signing: 3 links (rich / failed command with empty environment / bare) x every leaf of the signed part x every small edit (strings re-spelled, integers +-1, negated, +2^8..+2^63, -2^32, null <-> empty, member removed)";
+    bound += "; misfiled evidence: 9 file-name slots x (alone / next to a proper link) x thresholds 1,2; 9 authorised lists with a repeated id; 6 layouts that list one step name twice; one key under two ids x 4 (population, threshold) pairs; two functionaries handing in the same sub-layout, the directory of one of them (either) faulty in 4 ways, threshold 2; altered after signing: 3 links (rich / failed command with empty environment / bare) x every leaf of the signed part x every small edit (strings re-spelled, integers +-1, negated, +2^8..+2^63, -2^32, null <-> empty, member removed)";
     c.acc = acc;
     c.bound_completed = bound;
     c.rule = "state = link-directory population: per (step, functionary in {A,B in key table; C not in key table; D in key table}) one of absent / tampered / sublayout / garbage / a link with one or two signature entries over {own-valid, own-invalid, other-valid, other-invalid, unrelated-valid} in every order (34 cells); transition = set one cell; every state is run through in_toto_verify for every layout (authorised subset x threshold); non-trivial = population with at least one non-valid file".into();
